@@ -14,7 +14,7 @@ from .values import sig
 from .driver import make_exc
 
 ASYNC_FLAVOURS = ("agen", "aclass", "aclass_noclose", "aplain", "agenlike")
-SYNC_FLAVOURS = ("list", "seq", "iter")
+SYNC_FLAVOURS = ("list", "seq", "iter", "tuple", "tuplesub")
 SRC_FLAVOURS = ASYNC_FLAVOURS + SYNC_FLAVOURS
 FN_FLAVOURS = ("def", "async", "partial", "obj", "objaw")
 
@@ -39,6 +39,7 @@ class SourceBase:
             ctx.planned[name] = self.fault_exc
         self.close_fault = None
         self.close_raised = False
+        self.close_ret = spec.get("cret")
         if spec.get("cfault"):
             self.close_fault = make_exc(spec["cfault"], f"planned-close:{name}")
             ctx.planned[f"{name}.aclose"] = self.close_fault
@@ -136,6 +137,22 @@ class ListSource(SourceBase):
         return self._obj
 
 
+class MyTuple(tuple):
+    """a tuple subclass (like a namedtuple): tuple(x) must give a PLAIN tuple"""
+
+
+class TupleSource(ListSource):
+    def __init__(self, ctx, name, items, spec=None):
+        super().__init__(ctx, name, items, spec)
+        self._obj = tuple(items)
+
+
+class TupleSubSource(ListSource):
+    def __init__(self, ctx, name, items, spec=None):
+        super().__init__(ctx, name, items, spec)
+        self._obj = MyTuple(items)
+
+
 class AClassSource(SourceBase):
     """Class based async iterator with ``aclose`` (cancellation safe: state is
     only changed after the last suspension of a pull)."""
@@ -166,6 +183,8 @@ class AClassSource(SourceBase):
         if first and self.csusp:
             await self.ctx.suspend((self.name, "cleanup"))
         self.closed = True
+        if self.close_fault is None and self.close_ret is not None:
+            return self.close_ret  # whatever a source's aclose() returns is nobody's business
         if self.close_fault is not None and not self.close_raised:
             # the source's own cleanup fails (once): that error belongs to the user, too
             self.close_raised = True
@@ -301,6 +320,8 @@ _SRC_CLASSES = {
     "aplain": APlainSource,
     "agenlike": AGenLikeSource,
     "list": ListSource,
+    "tuple": TupleSource,
+    "tuplesub": TupleSubSource,
     "seq": SeqSource,
     "iter": SyncSource,
 }
@@ -310,6 +331,9 @@ def make_source(ctx, name, items, spec, side):
     """Build the double for one side: 'a' = library under test (flavour from
     the spec), 's' = stdlib reference (always the logging sync iterator)."""
     if side == "s":
+        if (spec or {}).get("fl") in ("tuple", "tuplesub") and not (spec or {}).get("fault"):
+            # what the stdlib does with a tuple (subclass) argument depends on its type
+            return _SRC_CLASSES[spec["fl"]](ctx, name, items, spec)
         return SyncSource(ctx, name, items, spec)
     return _SRC_CLASSES[(spec or {}).get("fl", "agen")](ctx, name, items, spec)
 
@@ -374,6 +398,13 @@ class Fn:
             raise self.fault_exc
         if self.kind == "table":
             return self.table[argkey(args) % len(self.table)]
+        if self.kind == "late-aw":
+            # first call: a plain value (so the callable counts as synchronous); some later calls
+            # return an awaitable object AS DATA: it must be passed on like any other value
+            from .values import AwaitableItem
+
+            if self.calls >= 2 and (self.calls + argkey(args)) % 2 == 0:
+                return AwaitableItem(("late", self.name, self.calls))
         if self.kind == "ident":
             return args[0]
         key = 0
